@@ -77,6 +77,8 @@ pub(crate) struct JsTopScopeWriter<W: fmt::Write> {
 
 impl<'a, W: fmt::Write> JsTopScopeWriter<W> {
     pub(crate) fn new(w: W) -> Self {
+        #[cfg(glass_easel_verif)]
+        verif::trace("T", "");
         Self {
             w,
             top_declares: vec![],
@@ -86,10 +88,14 @@ impl<'a, W: fmt::Write> JsTopScopeWriter<W> {
     }
 
     pub(crate) fn align<WW: fmt::Write>(&mut self, w: &JsFunctionScopeWriter<'a, WW>) {
+        #[cfg(glass_easel_verif)]
+        verif::trace("A", "");
         self.block.align(w.get_block());
     }
 
     pub(crate) fn finish(self) -> W {
+        #[cfg(glass_easel_verif)]
+        verif::trace_finish(&self.top_declares, &self.sub_strs);
         let mut w = self.w;
         let mut first = true;
         if self.top_declares.len() > 0 {
@@ -118,6 +124,8 @@ impl<'a, W: fmt::Write> JsTopScopeWriter<W> {
         f: impl FnOnce(&mut JsFunctionScopeWriter<W>) -> Result<R, TmplError>,
     ) -> Result<R, TmplError> {
         let mut sub_str = String::new();
+        #[cfg(glass_easel_verif)]
+        let _verif_scope = verif::Scope::new("S", "");
         let need_stat_sep = self.block.need_stat_sep;
         self.block.need_stat_sep = false;
         let ret = f(&mut JsFunctionScopeWriter {
@@ -182,6 +190,8 @@ impl<'a, W: fmt::Write> JsFunctionArgsAssigner<'a, W> {
     }
 
     pub(crate) fn gen_ident(&mut self) -> JsIdent {
+        #[cfg(glass_easel_verif)]
+        verif::trace("g", "");
         let block = self.get_block_mut();
         JsIdent {
             name: next_var_name(&mut block.ident_id_inc),
@@ -256,6 +266,8 @@ impl<'a, W: fmt::Write> JsFunctionScopeWriter<'a, W> {
     }
 
     pub(crate) fn gen_ident(&mut self) -> JsIdent {
+        #[cfg(glass_easel_verif)]
+        verif::trace("g", "");
         let block = self.get_block_mut();
         JsIdent {
             name: next_var_name(&mut block.ident_id_inc),
@@ -263,6 +275,8 @@ impl<'a, W: fmt::Write> JsFunctionScopeWriter<'a, W> {
     }
 
     pub(crate) fn gen_private_ident(&mut self) -> JsIdent {
+        #[cfg(glass_easel_verif)]
+        verif::trace("p", "");
         let block = self.get_block_mut();
         let var_id = block.private_ident_id_inc;
         block.private_ident_id_inc += 1;
@@ -272,6 +286,8 @@ impl<'a, W: fmt::Write> JsFunctionScopeWriter<'a, W> {
     }
 
     pub(crate) fn custom_stmt_str(&mut self, content: &str) -> Result<(), TmplError> {
+        #[cfg(glass_easel_verif)]
+        verif::trace("c", content);
         let block = self.get_block_mut();
         if block.need_stat_sep {
             block.need_stat_sep = false;
@@ -299,6 +315,8 @@ impl<'a, W: fmt::Write> JsFunctionScopeWriter<'a, W> {
         &mut self,
         f: impl FnOnce(&mut JsExprWriter<W>) -> Result<R, TmplError>,
     ) -> Result<R, TmplError> {
+        #[cfg(glass_easel_verif)]
+        let _verif_scope = verif::Scope::new("e", "");
         self.stat(|this| {
             let ret = f(&mut JsExprWriter {
                 w: this.w,
@@ -315,6 +333,8 @@ impl<'a, W: fmt::Write> JsFunctionScopeWriter<'a, W> {
 
     #[allow(dead_code)]
     pub(crate) fn set_var_on_top_scope(&mut self, name: &str) -> Result<(), TmplError> {
+        #[cfg(glass_easel_verif)]
+        verif::trace("s", name);
         self.top_scope.declare_on_top(name)
     }
 
@@ -323,10 +343,14 @@ impl<'a, W: fmt::Write> JsFunctionScopeWriter<'a, W> {
         name: &str,
         init: impl FnOnce(&mut JsExprWriter<W>) -> Result<R, TmplError>,
     ) -> Result<R, TmplError> {
+        #[cfg(glass_easel_verif)]
+        let _verif_scope = verif::Scope::new("si", name);
         self.top_scope.declare_on_top_init(name, init)
     }
 
     pub(crate) fn declare_var_on_top_scope(&mut self) -> Result<JsIdent, TmplError> {
+        #[cfg(glass_easel_verif)]
+        verif::trace("d", "");
         let block = &mut self.top_scope.block;
         let ident = JsIdent {
             name: next_var_name(&mut block.ident_id_inc),
@@ -339,6 +363,8 @@ impl<'a, W: fmt::Write> JsFunctionScopeWriter<'a, W> {
         &mut self,
         init: impl FnOnce(&mut JsExprWriter<W>, JsIdent) -> Result<R, TmplError>,
     ) -> Result<R, TmplError> {
+        #[cfg(glass_easel_verif)]
+        let _verif_scope = verif::Scope::new("di", "");
         let block = &mut self.top_scope.block;
         let var_name = next_var_name(&mut block.ident_id_inc);
         let ident = JsIdent {
@@ -368,6 +394,8 @@ impl<'a, W: fmt::Write> JsExprWriter<'a, W> {
         &mut self,
         f: impl FnOnce(&mut JsFunctionScopeWriter<W>) -> Result<R, TmplError>,
     ) -> Result<R, TmplError> {
+        #[cfg(glass_easel_verif)]
+        let _verif_scope = verif::Scope::new("f", "");
         write!(&mut self.w, "()=>{{")?;
 
         let mut block = self.get_block().extend();
@@ -385,6 +413,8 @@ impl<'a, W: fmt::Write> JsExprWriter<'a, W> {
         args: &str,
         f: impl FnOnce(&mut JsFunctionScopeWriter<W>) -> Result<R, TmplError>,
     ) -> Result<R, TmplError> {
+        #[cfg(glass_easel_verif)]
+        let _verif_scope = verif::Scope::new("fa", args);
         write!(&mut self.w, "({})=>{{", args)?;
         let mut block = self.get_block().extend();
         let ret = f(&mut JsFunctionScopeWriter {
@@ -401,11 +431,15 @@ impl<'a, W: fmt::Write> JsExprWriter<'a, W> {
         args_f: impl FnOnce(&mut JsFunctionArgsAssigner<W>) -> Result<Vec<JsIdent>, TmplError>,
         f: impl FnOnce(&mut JsFunctionScopeWriter<W>, Vec<JsIdent>) -> Result<R, TmplError>,
     ) -> Result<R, TmplError> {
+        #[cfg(glass_easel_verif)]
+        let _verif_scope = verif::Scope::new("fd", "");
         let mut block = self.get_block().extend();
         let args = args_f(&mut JsFunctionArgsAssigner {
             block: Some(&mut block),
             top_scope: &mut self.top_scope,
         })?;
+        #[cfg(glass_easel_verif)]
+        verif::trace("fd|", "");
         write!(
             &mut self.w,
             "({})=>{{",
@@ -430,6 +464,8 @@ impl<'a, W: fmt::Write> JsExprWriter<'a, W> {
         &mut self,
         f: impl FnOnce(&mut JsFunctionScopeWriter<W>) -> Result<R, TmplError>,
     ) -> Result<R, TmplError> {
+        #[cfg(glass_easel_verif)]
+        let _verif_scope = verif::Scope::new("b", "");
         write!(&mut self.w, "{{")?;
         let block = self.get_block();
         let mut child_block = block.extend();
@@ -447,6 +483,8 @@ impl<'a, W: fmt::Write> JsExprWriter<'a, W> {
         &mut self,
         f: impl FnOnce(&mut Self) -> Result<R, TmplError>,
     ) -> Result<R, TmplError> {
+        #[cfg(glass_easel_verif)]
+        let _verif_scope = verif::Scope::new("pa", "");
         write!(&mut self.w, "(")?;
         let ret = f(self)?;
         write!(&mut self.w, ")")?;
@@ -455,6 +493,8 @@ impl<'a, W: fmt::Write> JsExprWriter<'a, W> {
 
     #[allow(dead_code)]
     pub(crate) fn declare_var_on_top_scope(&mut self) -> Result<JsIdent, TmplError> {
+        #[cfg(glass_easel_verif)]
+        verif::trace("d", "");
         let block = &mut self.top_scope.block;
         let ident = JsIdent {
             name: next_var_name(&mut block.ident_id_inc),
@@ -466,6 +506,8 @@ impl<'a, W: fmt::Write> JsExprWriter<'a, W> {
 
 impl<'a, W: fmt::Write> fmt::Write for JsExprWriter<'a, W> {
     fn write_str(&mut self, s: &str) -> fmt::Result {
+        #[cfg(glass_easel_verif)]
+        verif::trace("w", s);
         write!(&mut self.w, "{}", s)
     }
 }
